@@ -18,7 +18,7 @@ fn admits(b: &DepthBehavior, d: u128) -> bool {
 }
 
 //@ob C15.min_at_pivot
-//@ props: C15 C05
+//@ props: C15
 //@ kind: complete
 //@ fns: src/walk/behavior.rs::DepthMin::min_at_pivot
 //@ pre: min != 0 (type invariant of NonZeroUsize); w + pivot representable (it is an entry depth)
@@ -33,7 +33,7 @@ fn ob_c15_min_at_pivot(min: usize, pivot: usize, w: usize) {
 }
 
 //@ob C15.max_at_pivot
-//@ props: C15 C05
+//@ props: C15
 //@ kind: complete
 //@ fns: src/walk/behavior.rs::DepthMax::max_at_pivot
 //@ pre: w + pivot representable
@@ -49,7 +49,7 @@ fn region_c15_max_below_pivot(max: usize, pivot: usize, _w: usize) -> bool {
 }
 
 //@ob C15.min_max_at_pivot
-//@ props: C15 C05
+//@ props: C15
 //@ kind: complete
 //@ fns: src/walk/behavior.rs::DepthMinMax::min_max_at_pivot src/walk/behavior.rs::DepthMinMax::max
 //@ pre: min != 0; w + pivot representable
@@ -72,7 +72,7 @@ fn region_c15_minmax_below_pivot(min: usize, extent: usize, pivot: usize, _w: us
 }
 
 //@ob C15.minmax.max
-//@ props: C15 C05
+//@ props: C15
 //@ kind: complete
 //@ fns: src/walk/behavior.rs::DepthMinMax::max
 //@ pre: min != 0
@@ -88,7 +88,7 @@ fn ob_c15_minmax_max(min: usize, extent: usize) {
 }
 
 //@ob C15.from_depths_or_max
-//@ props: C15 C05
+//@ props: C15
 //@ kind: complete
 //@ fns: src/walk/behavior.rs::DepthMinMax::from_depths_or_max
 //@ pre: none
@@ -103,7 +103,7 @@ fn ob_c15_from_depths_or_max(p: usize, q: usize, d: usize) {
 }
 
 //@ob C15.from_min_or_unbounded
-//@ props: C15 C05
+//@ props: C15
 //@ kind: complete
 //@ fns: src/walk/behavior.rs::DepthMin::from_min_or_unbounded
 //@ pre: none
@@ -120,7 +120,7 @@ fn opt(tag: bool, x: usize) -> Option<usize> {
 }
 
 //@ob C15.bounded
-//@ props: C15 C05
+//@ props: C15
 //@ kind: complete
 //@ fns: src/walk/behavior.rs::DepthBehavior::bounded
 //@ pre: none
@@ -147,7 +147,7 @@ fn ob_c15_bounded(has_min: bool, min: usize, has_max: bool, max: usize, d: usize
 }
 
 //@ob C15.bounded_at_depth_variance
-//@ props: C15 C05
+//@ props: C15
 //@ kind: complete
 //@ fns: src/walk/behavior.rs::DepthBehavior::bounded_at_depth_variance src/walk/behavior.rs::DepthBehavior::bounded
 //@ pre: the variance is a well-formed public DepthVariance (invariant n, or variant with lower bound l)
@@ -190,6 +190,37 @@ fn ob_c15_bounded_at_depth_variance(
         let spec = tmin.map_or(true, |m| m <= d as u128) && tmax.map_or(true, |m| d as u128 <= m);
         assert!(admits(&b, d as u128) == spec, "C15 bounded_at_depth_variance translates both ends");
     }
+}
+
+//@ob C05.behavior.total
+//@ props: C05
+//@ kind: complete
+//@ fns: src/walk/behavior.rs::DepthMin::min_at_pivot src/walk/behavior.rs::DepthMax::max_at_pivot src/walk/behavior.rs::DepthMinMax::min_max_at_pivot src/walk/behavior.rs::DepthMinMax::max src/walk/behavior.rs::DepthMinMax::from_depths_or_max src/walk/behavior.rs::DepthMin::from_min_or_unbounded src/walk/behavior.rs::DepthBehavior::bounded src/walk/behavior.rs::DepthBehavior::bounded_at_depth_variance
+//@ pre: none beyond type invariants (NonZeroUsize != 0); all of usize
+//@ post: every depth-behaviour function returns (no panic, no arithmetic overflow)
+fn ob_c05_behavior_total(a: usize, b: usize, p: usize, has_a: bool, has_b: bool, kind: u8) {
+    vcover!(a != 0 && a > b);
+    if a != 0 {
+        let _ = DepthMin(NonZeroUsize::new(a).unwrap()).min_at_pivot(p);
+        let mm = DepthMinMax { min: NonZeroUsize::new(a).unwrap(), extent: b };
+        let _ = mm.min_max_at_pivot(p);
+        let _ = mm.max();
+    }
+    let _ = DepthMax(a).max_at_pivot(p);
+    let _ = DepthMinMax::from_depths_or_max(a, b);
+    let _ = DepthMin::from_min_or_unbounded(a);
+    let _ = DepthBehavior::bounded(opt(has_a, a), opt(has_b, b));
+    let variance = match kind % 3 {
+        0 => DepthVariance::Invariant(p),
+        1 => DepthVariance::Variant(crate::query::VariantRange::Unbounded),
+        _ => {
+            vassume!(p != 0);
+            DepthVariance::Variant(crate::query::VariantRange::Bounded(
+                crate::token::BoundedVariantRange::Lower(NonZeroUsize::new(p).unwrap()).into(),
+            ))
+        },
+    };
+    let _ = DepthBehavior::bounded_at_depth_variance(opt(has_a, a), opt(has_b, b), variance);
 }
 
 //@ob C15.canary
